@@ -48,7 +48,7 @@ def run(ctx):
     ctx.validated = rp.count
     if ctx.tier == "thorough":
         res = kani.run_many(["k_parse_literal"], cap_s=1500)
-        kani.settle(ctx, res, lambda h: h[2:])
+        kani.settle(ctx, res, lambda h: h[2:], optional=("k_parse_literal",))
     ctx.extra["states"] = ctx.obligations
     ctx.extra["transitions"] = ctx.queries
     ctx.extra["cvc5"] = q.summary()
